@@ -18,8 +18,9 @@ import (
 //  5. The file ends with exactly one newline (an empty file stays empty).
 func CanonicalizeSource(source string) string {
 	source = strings.TrimPrefix(source, "\ufeff") // strip UTF-8 BOM; the lexer rejects it
+	// Only CRLF is a line ending. A lone CR is an ordinary character to the
+	// lexer - part of a string literal or of a comment - and stays what it is.
 	source = strings.ReplaceAll(source, "\r\n", "\n")
-	source = strings.ReplaceAll(source, "\r", "\n")
 
 	lines := strings.Split(source, "\n")
 	var out []string
